@@ -358,6 +358,7 @@ func vcRunC08(t *vcTrial, cfg vc08Cfg) {
 		secondDone := make(chan struct{})
 		secondOverlap := false
 		secondUsesWrite := r.chance(50)
+		secondLen, secondWrote := r.rng(1, 64), 0
 		thirdBad := ""
 		// a second Flush/Write is only issued where the first cannot end by a write timeout meanwhile:
 		// flushing again after a write timeout is outside the contract (the poller may still be
@@ -375,7 +376,16 @@ func vcRunC08(t *vcTrial, cfg vc08Cfg) {
 				}
 				secondOverlap = true
 				if secondUsesWrite {
-					_, secondErr = conn.Write(nil) // zero-length: submits nothing even if it were admitted
+					// the payload is what the stream would continue with: admitted (legal only when the
+					// first call had finished) it simply is the next piece; rejected it must leave no
+					// trace - if it leaks into the output buffer the peer sees these bytes twice
+					p := make([]byte, secondLen)
+					vfFill(p, w.Seed, w.Pos)
+					var n int
+					n, secondErr = conn.Write(p)
+					if secondErr == nil {
+						secondWrote = n
+					}
 				} else {
 					secondErr = conn.Writer().Flush()
 				}
@@ -460,6 +470,10 @@ func vcRunC08(t *vcTrial, cfg vc08Cfg) {
 			}
 		}
 		<-secondDone
+		if secondWrote > 0 {
+			w.Pos += uint64(secondWrote) // an admitted Write: its bytes follow everything submitted before
+			t.Stat("second_write_admitted", 1)
+		}
 		desc := fmt.Sprintf("flush #%d of %d bytes (peer=%s, timeout=%s/%v, sndbuf=%d)", fi, w.Pos-w.Flushed, cfg.Peer, cfg.TimeoutKind, d, cfg.SndBuf)
 		if res.pan != nil {
 			t.Violate("C08", "panic", "%s panicked: %v", desc, res.pan)
